@@ -185,7 +185,9 @@ def model_suite(ctx, s_m, only=None):
         # ---- the library-wide size limit (characters for text, bytes for bytes) and what cannot be encoded; the wrapper looks at the
         #      prefix BEFORE the wrapped class looks at the size of the secret
         big = [b"a" * 4096, b"a" * 4097, "€" * 4096, "€" * 4097, "\ud800", "a\udfffb"]
-        if name in BCRYPT or name in ("ldap_bsdi_crypt", "ldap_sha256_crypt", "ldap_sha512_crypt", "ldap_sha1_crypt") and not T:
+        # (exactly-4096-byte secrets are left to the inner hashers' own suites: the Lean list model of the iterated digests costs minutes per
+        #  such secret, and the wrapper adds nothing to the digest — also in the thorough tier, where this once took hours)
+        if name in BCRYPT or name in ("ldap_bsdi_crypt", "ldap_sha256_crypt", "ldap_sha512_crypt", "ldap_sha1_crypt", "ldap_md5_crypt", "ldap_des_crypt"):
             big = [b"a" * 4097, "€" * 4097, "\ud800"] + (["é" * 2049] if name in BCRYPT else [])
         for sec in big:
             kw, margs = gen_settings(rng, name)
